@@ -2,8 +2,10 @@
 
 Decided: argument roles and units of norm.logcdf, composition of likelihood and prior, the
 bounds test and the masks, agreement between the cached RBF fields written and read, evidence
-order in update(), the is_sampling bracket.  Not decided: equality of the fast path with GPy,
-gradient = derivative.
+order in update(), the is_sampling bracket, `noiseless` honoured by both paths, the likelihood
+gradient as the symbolic derivative of the log likelihood (sa/symdiff.py), the fast-path GP
+equations and their derivatives in the scalar specialisation.  Not decided: equality of the fast
+path with GPy for general input_dim / evidence size, GPy itself.
 """
 
 import ast
